@@ -265,6 +265,29 @@ class C05(Prop):
         return [f"C05 edit {obs['before']} {self._hx(case['key'])} {t} {tok}"]
 
     def model_compare(self, case, obs, answers):
+        """the hand model's answer, then the outcome of the TRANSLATED codec on the same request (`| gen …`): the
+        translated source must succeed exactly when the implementation does and agree with the hand model"""
+        gens = [a.split(" | gen ")[1] if " | gen " in a else None for a in answers]
+        answers = [a.split(" | gen ")[0] for a in answers]
+        hand = self._hand_compare(case, obs, answers)
+        if hand is not None:
+            return hand
+        impl_ok = ("enc" in obs, "parsed" in obs) if case["kind"] == "codec" else \
+            (True, True, True, True) if case["kind"] == "phys" else (obs.get("ok", False),)
+        for g, ok in zip(gens, impl_ok):
+            if g is None:
+                if case["kind"] == "phys":
+                    continue                       # the id tables are tied by Generated.Tables, not by the codec
+                return "driver gave no answer for the translated codec"
+            if case["kind"] == "phys" and "err" in obs:
+                continue
+            if ok and g != "ok same":
+                return f"translated codec (Generated.SigprocCodec): {g}, implementation succeeded"
+            if not ok and g.startswith("ok"):
+                return f"translated codec (Generated.SigprocCodec) succeeds ({g}), implementation raised"
+        return None
+
+    def _hand_compare(self, case, obs, answers):
         from fractions import Fraction
         if case["kind"] == "codec":
             a = answers[0].split()
